@@ -28,7 +28,7 @@ from typing import TYPE_CHECKING
 from igraph import Vertex
 
 from explorerscript.ssb_converting.decompiler.write_handlers.abstract import AbstractWriteHandler
-from explorerscript.ssb_converting.ssb_special_ops import SsbLabelJump
+from explorerscript.ssb_converting.ssb_special_ops import SsbLabel, SsbLabelJump
 
 if TYPE_CHECKING:
     from explorerscript.ssb_converting.ssb_decompiler import ExplorerScriptSsbDecompiler
@@ -53,5 +53,10 @@ class CallWriteHandler(AbstractWriteHandler):
         self.decompiler.labels_jumped_to.add(op.label.id)
         exits = self.start_vertex.out_edges()
         assert 3 > len(exits) > 0, f"A call must have exactly one or two points to jump to, has {len(exits)}."
-        # Continue with the op after the call (the edge to the called label has a higher flow level).
-        return min(exits, key=lambda e: e["flow_level"]).target_vertex
+        # Continue with the op after the call, not with the called label (unless that is also what comes next).
+        not_called = [
+            e
+            for e in exits
+            if not (isinstance(e.target_vertex["op"], SsbLabel) and e.target_vertex["op"].id == op.label.id)
+        ]
+        return min(not_called or exits, key=lambda e: e["flow_level"]).target_vertex
